@@ -4,6 +4,7 @@ the model value is '<concrete model results> ## <abstract spec results>'."""
 import re
 CRATE = "cstore"
 DRIVER = "store"
+EXTRACT = "Store"
 COQ_IMPORTS = "From SV Require Import Model.StoreIter."
 
 def model_case(c): return c
@@ -54,7 +55,17 @@ def cmp_op(op, obs, spec):
         return f"{op}: returned '{obs[:200]}' but the reference event store prescribes '{spec[:200]}'"
     return None
 
-def monitor_kinds(kinds, cls, after_crash_all=False):
+import os
+SVIO = os.path.join(os.path.dirname(os.path.dirname(os.path.abspath(__file__))), "harness", "target", "libsvio.so")
+def ensure_svio():
+    src = os.path.join(os.path.dirname(SVIO), "..", "svio", "svio.c")
+    if not os.path.exists(SVIO) or os.path.getmtime(SVIO) < os.path.getmtime(src):
+        import subprocess
+        os.makedirs(os.path.dirname(SVIO), exist_ok=True)
+        subprocess.run(["cc", "-O1", "-shared", "-fPIC", "-o", SVIO, src, "-ldl", "-lpthread"], check=True)
+    return SVIO
+
+def monitor_kinds(kinds, cls, after_crash_all=False, durable=False):
     def mon(c, o, e):
         ops, obs, spec = split_ops(c), split_res(o), split_res(spec_of(e))
         if o.startswith("open-err"): return (cls + ":open", f"database did not open: {o[:200]}")
@@ -65,6 +76,8 @@ def monitor_kinds(kinds, cls, after_crash_all=False):
             sp = spec[i] if i < len(spec) else ""
             if ob == "TIMEOUT": return (cls + ":timeout", f"op {i} {op[:80]} did not complete within 20 s")
             if k == "CR": crashed = True
+            if durable and k == "A" and ("!unsynced" in ob or "!unwritten" in ob):
+                return (cls + ":fsync", f"op {i} {op[:80]}: the append was acknowledged ({ob[:80]}) while bytes of the transaction were not yet covered by an fdatasync of the segment file")
             if k in kinds or (after_crash_all and crashed):
                 m = cmp_op(op, ob, sp)
                 if m: return (cls + ":" + k, f"op {i}: {m}")
